@@ -28,7 +28,7 @@ func checkC20(r *core.Run) {
 		cds := "node/keeper.Keeper.CheckDelegationShare"
 		del := "node/types.StakingKeeper.GetDelegation(*)#0.Shares"
 		val := "node/types.StakingKeeper.GetValidator(*)#0.DelegatorShares"
-		ratio := "sdk.Dec.Quo(" + del + ",*" + val + "*)"
+		ratio := "sdk.Dec.Quo(" + del + ",sdk.Dec.Sub(" + val + ",#4))"
 		if fn := r.Func("G-share-ratio", cds); fn != nil {
 			ck := &guard.Checker{P: r.P, Fn: fn, Res: r.Resolver(fn)}
 			n := 0
